@@ -516,6 +516,11 @@ func (p *Program) CheckGuarded(spec GuardSpec, scope []*ssa.Function, constructi
 		}
 		sites := p.CallSites(fn)
 		if fn.Parent() != nil && len(sites) == 0 {
+			// a closure handed to a synchronous external call (sort.Slice and the
+			// like) runs inside that call
+			sites = closureArgSites(fn)
+		}
+		if fn.Parent() != nil && len(sites) == 0 {
 			// closure that is never called synchronously: it is a root
 			return res(false, "closure "+FuncName(fn)+" starts with no lock held", []string{FuncName(fn)})
 		}
@@ -827,4 +832,46 @@ func (p *Program) WrittenOutside(scope []*ssa.Function, construction map[*ssa.Fu
 		}
 		return false, ""
 	}
+}
+
+// closureArgSites returns the synchronous calls that receive closure fn as an
+// argument (not go statements and not the thread-group / mux registrations).
+func closureArgSites(fn *ssa.Function) []ssa.CallInstruction {
+	parent := fn.Parent()
+	if parent == nil {
+		return nil
+	}
+	var out []ssa.CallInstruction
+	for _, b := range parent.Blocks {
+		for _, in := range b.Instrs {
+			mc, ok := in.(*ssa.MakeClosure)
+			if !ok || mc.Fn != fn {
+				continue
+			}
+			refs := mc.Referrers()
+			if refs == nil {
+				continue
+			}
+			for _, r := range *refs {
+				call, ok := r.(*ssa.Call)
+				if !ok {
+					return nil // stored, deferred, spawned ...: not a plain synchronous use
+				}
+				if kind, _ := SpawnTarget(&call.Call); kind != "" {
+					return nil
+				}
+				isArg := false
+				for _, a := range call.Call.Args {
+					if a == mc {
+						isArg = true
+					}
+				}
+				if !isArg {
+					return nil
+				}
+				out = append(out, call)
+			}
+		}
+	}
+	return out
 }
